@@ -750,7 +750,9 @@ def oracle(spec: dict, passes: list[str], seed: int, protos=None, raised=None, u
                         info["judge_fallback"] = "onnxruntime"
                         continue
                 except Exception:  # noqa: BLE001
-                    pass
+                    # neither evaluator can execute this (checker-accepted) model: no verdict on the values for this step
+                    info["unjudged_step"] = i
+                    continue
             bad.append(f"execution-fails-after: step {i} {name}: {type(e).__name__}: {str(e)[:160]}")
             break
         if len(ref) != len(ref0):
